@@ -77,3 +77,13 @@ func (v *VerifBlobLeaseManager) CreatePartitions(ctx context.Context, count int)
 func (v *VerifBlobLeaseManager) LeasePartition(ctx context.Context, id string, index uint32) time.Duration {
 	return v.m.leasePartition(ctx, id, index)
 }
+
+// VerifEmit raises an event on the unexported event API (the harness checks listener delivery).
+func (r *Batcher) VerifEmit(event string, val int, msg string, metadata interface{}) {
+	r.emit(event, val, msg, metadata)
+}
+
+// VerifEmit raises an event on the unexported event API.
+func (r *AzureSharedResource) VerifEmit(event string, val int, msg string, metadata interface{}) {
+	r.emit(event, val, msg, metadata)
+}
